@@ -411,6 +411,32 @@ def stepShp (st : DState) (cmd : String) (args : List String) : DState × String
       | _ => (st, "bad-op")
   | _ => (st, "bad-op")
 
+def parseTr? (tok : String) : Option Tr :=
+  match tok.splitOn ":" with
+  | ["lin", m, b] => do some (Tr.linear (← parseRat? m) (← parseRat? b))
+  | ["mm", a, b, l, u] => do some (Tr.minmax (← parseRat? a) (← parseRat? b) (← parseRat? l) (← parseRat? u))
+  | ["z", m, sd] => do some (Tr.zscore (← parseRat? m) (← parseRat? sd))
+  | _ => none
+
+def parsePairOpt? (toks : List String) : Option (Option (Rat × Rat)) :=
+  match toks with
+  | ["-"] => some none
+  | [a, b] => do some (some (← parseRat? a, ← parseRat? b))
+  | _ => none
+
+def stepXf (st : DState) (cmd : String) (args : List String) : DState × String :=
+  match splitBar args with
+  -- xf.norm|xf.denorm  chain tokens | dom | dist | values...
+  | [chain, dom, dist, xs] =>
+      match chain.mapM parseTr?, parsePairOpt? dom, parsePairOpt? dist, parseRats? xs with
+      | some ts, some d, some ds, some vals =>
+          let h : Hyper := { dom := d, dist := ds }
+          if cmd == "xf.norm" then (st, showRats (vals.map (normalize ts h)))
+          else if cmd == "xf.denorm" then (st, showRats (vals.map (denormalize ts h)))
+          else (st, "bad-op")
+      | _, _, _, _ => (st, "bad-op")
+  | _ => (st, "bad-op")
+
 def step (st : DState) (line : String) : DState × String :=
   match (line.trimAscii.toString.splitOn " ").filter (· ≠ "") with
   | [] => (st, "")
@@ -423,6 +449,7 @@ def step (st : DState) (line : String) : DState × String :=
       else if cmd.startsWith "ref." then stepRef st cmd args
       else if cmd.startsWith "fpi." then stepFpi st cmd args
       else if cmd.startsWith "shp." then stepShp st cmd args
+      else if cmd.startsWith "xf." then stepXf st cmd args
       else (st, "bad-op")
 
 partial def loop (h : IO.FS.Stream) (out : IO.FS.Stream) (st : DState) : IO Unit := do
